@@ -586,7 +586,7 @@ pub fn run(tier: Tier) -> CheckResult {
         sample_cases = cases.iter().take(2).collect();
     }
     res.coverage.set("samples", json!(sample_cases));
-    res.coverage.set("rule", "state = whole sandbox tree (project, config files, bystanders, output directory pre-populated with a set of foreign entries); transition = one action of {generate, generate --force, build-script run, init, remove all commands + generate, remove all events + generate/build, generate with -p/-o flags against a discovered tauri.conf.json that names another directory} executed by the real binary / build path; invariant after every transition: every created/modified/deleted path lies directly in the output directory and bears a reserved generated name (or is the output directory / its ancestors being created, or the config file given to init); on a subset of runs a syscall monitor (strace) additionally requires every mutating syscall to address a path inside the output directory; a case is non-trivial when the output directory held at least one foreign entry");
+    res.coverage.set("rule", "[round 7: output path ./ui/../gen-link through a symbolic link (the resolved directory is the output directory, a hand-written directory sits where the text-folded path points); init -o ./tauri.conf.json beside a project path with a tauri.conf.json of its own] state = whole sandbox tree (project, config files, bystanders, output directory pre-populated with a set of foreign entries); transition = one action of {generate, generate --force, build-script run, init, remove all commands + generate, remove all events + generate/build, generate with -p/-o flags against a discovered tauri.conf.json that names another directory} executed by the real binary / build path; invariant after every transition: every created/modified/deleted path lies directly in the output directory and bears a reserved generated name (or is the output directory / its ancestors being created, or the config file given to init); on a subset of runs a syscall monitor (strace) additionally requires every mutating syscall to address a path inside the output directory; a case is non-trivial when the output directory held at least one foreign entry");
     res.assumptions = vec!["reserved names as listed in the property statement".into(), "strace path resolution assumes the tool does not chdir (it does not)".into()];
     res
 }
